@@ -90,7 +90,7 @@ func normFault(s string, native string) string {
 }
 
 func isExplicitClass(c string) bool {
-	for _, p := range []string{"s:boom", "s:again", "s:hostboom", "e:err", "i:", "E:", "pt:", "hpt:"} {
+	for _, p := range []string{"s:boom", "s:again", "s:late", "s:hostboom", "e:err", "i:", "E:", "pt:", "hpt:"} {
 		if strings.HasPrefix(c, p) {
 			return true
 		}
@@ -167,7 +167,7 @@ func diffKind(got, want map[int][]string) string {
 			if normFault(a, b) != b {
 				wa, wb := firstWord(a), firstWord(b)
 				// what about the class of a recovered value
-				if wa == wb && (wa == "d-recover" || wa == "top" || wa == "g-top" || wa == "deep-recover") {
+				if wa == wb && (wa == "d-recover" || wa == "d-recover-named" || wa == "top" || wa == "g-top" || wa == "deep-recover") {
 					return wa + " class " + classKind(lastWord(a)) + " want " + classKind(lastWord(b))
 				}
 				return "got " + wa + " want " + wb
@@ -445,14 +445,14 @@ func faultName(ev string) string {
 //
 // The plan space of small call trees is enumerated completely (the
 // fault_enumeration part of C06): level A = one activation with up to two
-// deferred calls (14 defer variants: 10 plain forms + the recovering literal in
+// deferred calls (18 defer variants: 14 plain forms + the recovering literal in
 // its 4 modes) and each of 29 bodies (return; each of 14 faults; result set then
 // each of 14 faults); level B = the same root calling one child that has up to
 // one deferred call and one of the 29 bodies. Entry point = index mod 5.
 
 var c06DeferVariants = func() [][]int {
 	var v [][]int
-	for k := 0; k < 11; k++ {
+	for k := 0; k < 15; k++ {
 		if k == 5 {
 			for m := 0; m < 4; m++ {
 				v = append(v, []int{5, m})
